@@ -13,6 +13,7 @@
    entry maps every state to its successors under the matching label(s).  Accepted = the set is
    non-empty after the last entry.  The ordering monitor of the property is evaluated directly on
    the log as well ([order_ok]). *)
+From GS Require Model.Forwarder.
 From GS Require Export Base.Bytes Base.CorrLib Base.LTS Model.Lambda.
 From Coq Require Import Arith.
 
@@ -31,7 +32,17 @@ Inductive obs :=
 | OUpReq (names : list dp)            (* fake upstream: POST /v2/raw arrived with these series *)
 | OUpResp (names : list dp) (ok : bool).   (* ... and is answered 2xx / refused *)
 
-Record c20case := mkCase { c_srverr : bool; c_log : list obs }.
+(* mkCase: a log of the extension as deployed (no dynamic headers).
+   mkDynCase: the `dynhdr` stream - the real extension with http-transport.dynamic-headers = hdr and
+   init-phase datapoints [items] (id, tags key); observed: the non-empty POSTs (series ids per POST)
+   and whether a GET /next was ever issued.  Compared with what the composed model (handler of
+   Model/Forwarder.v in place of the forwarder actor; Props C20_dynamic_headers_refuted) predicts for
+   the initial flush: one POST and one notification per part of SplitByTags, none for an empty flush. *)
+Inductive c20case :=
+| mkCase (c_srverr : bool) (c_log : list obs)
+| mkDynCase (hdr : list str) (items : list (nat * str)) (posts : list (list nat)) (nexts : bool).
+Definition c_srverr (c : c20case) : bool := match c with mkCase b _ => b | _ => false end.
+Definition c_log (c : c20case) : list obs := match c with mkCase _ l => l | _ => [] end.
 
 (* ---- state sets ---- *)
 
@@ -189,7 +200,30 @@ Definition order_ok (log : list obs) : bool :=
     | _, _ => true
     end) (seq 1 (length nextpos)).
 
-Definition check_case (c : c20case) : bool :=
-  match accepts c with Accepted _ => order_ok (c_log c) | _ => false end.
+(* ---- the dynhdr stream: prediction of the composed model for the initial flush ---- *)
+Definition dyn_parts (hdr : list str) (items : list (nat * str)) : list (list nat) :=
+  map (fun p => map GS.Model.Forwarder.it_id (snd p))
+      (GS.Model.Forwarder.bag_split (GS.Model.Forwarder.effective_dyn [] hdr)
+         (map (fun ik => GS.Model.Forwarder.Item (fst ik) [] (snd ik) []) items)).
+Definition same_nats (a b : list nat) : bool :=
+  (length a =? length b) && forallb (fun x => existsb (Nat.eqb x) b) a && forallb (fun x => existsb (Nat.eqb x) a) b.
+Definition same_groups (a b : list (list nat)) : bool :=
+  (length a =? length b) && forallb (fun x => existsb (same_nats x) b) a && forallb (fun x => existsb (same_nats x) a) b.
+Definition check_dyn hdr items posts (nexts : bool) : bool :=
+  let parts := dyn_parts hdr items in
+  same_groups parts posts && Bool.eqb nexts (negb (length parts =? 0)).
 
-Definition explain_case (c : c20case) : verdict * bool := (accepts c, order_ok (c_log c)).
+Definition check_case (c : c20case) : bool :=
+  match c with
+  | mkCase _ _ => match accepts c with Accepted _ => order_ok (c_log c) | _ => false end
+  | mkDynCase hdr items posts nexts => check_dyn hdr items posts nexts
+  end.
+
+Inductive explanation :=
+| ExTrace (v : verdict) (order : bool)
+| ExDyn (predicted_posts : list (list nat)) (predicted_next : bool).
+Definition explain_case (c : c20case) : explanation :=
+  match c with
+  | mkCase _ _ => ExTrace (accepts c) (order_ok (c_log c))
+  | mkDynCase hdr items _ _ => let p := dyn_parts hdr items in ExDyn p (negb (length p =? 0))
+  end.
